@@ -26,7 +26,8 @@ from vf import core, recgen
 THEOREMS = [
     "C14_generated_cfg_ok", "C14_base64_roundtrip", "C14_iso_roundtrip", "C14_value_roundtrip", "C14_roundtrip",
     "C14_roundtrip_nonfinite_partial", "C14_lines_are_documents", "C14_lines_plain_json",
-    "C14_no_descriptors_readable", "C14_scalars_preserved", "C14_comparisons_sound",
+    "C14_no_descriptors_readable", "C14_refused_write_step", "C14_refused_writes", "C14_tolerant_writer_agrees",
+    "C14_scalars_preserved", "C14_comparisons_sound",
     "C14_nonfinite_not_plain_refuted", "C14_nan_payload_refuted", "C14_hyp_satisfiable",
 ]
 
@@ -403,12 +404,15 @@ def coq_desc(name, fields):
     return "(Desc %s [%s])" % (ctext(name), "; ".join("(%s, %s)" % (ctext(t), ctext(n)) for t, n in fields))
 
 
-def coq_record(r, opaque=None):
-    """opaque: {field name: tree} for string slots of a fallback record that hold str() of a list / dict"""
+def coq_record(r, opaque=None, refused=()):
+    """opaque: {field name: tree} for string slots of a fallback record that hold str() of a list / dict;
+    refused: names of the slots holding a value json.dumps refuses (the model's pack_value is None on VOpaque)"""
     d = r._desc
     vals = []
     for t, n in all_fields(d):
-        if opaque and n in opaque:
+        if n in refused:
+            vals.append("(VOpaque JNull)")
+        elif opaque and n in opaque:
             vals.append("(VOpaque %s)" % coq_tree(opaque[n]))
         else:
             vals.append(coq_value(t, getattr(r, n)))
@@ -431,6 +435,13 @@ Definition w_ok (on : bool) tbl (rs : list record) (docs : list json) : bool :=
 (* model's reader on the implementation's documents = what the implementation read back *)
 Definition r_ok tbl (docs : list json) (back : list record) : bool :=
   match read_json json_cfg (H tbl) docs with Some m => recs_eqb m back | None => false end.
+(* the same when some writes are refused and the application carries on *)
+Definition wt_ok (on : bool) tbl (rs : list record) (docs : list json) : bool :=
+  docs_eqb (write_tolerant json_cfg (H tbl) on [] rs) docs.
+(* which writes the model refuses = which writes the implementation refused *)
+Definition acc_ok tbl (rs : list record) (flags : list bool) : bool :=
+  forallb (fun p => Bool.eqb (accepted json_cfg (H tbl) true (fst p)) (snd p)) (combine rs flags)
+  && Nat.eqb (List.length rs) (List.length flags).
 (* the generated records satisfy the theorems' hypothesis *)
 Definition h_ok (rs : list record) : bool := forallb (record_ok json_cfg) rs.
 """
@@ -487,7 +498,10 @@ def safe_repr(v):
             return "[" + ", ".join(safe_repr(x) for x in v) + "]"
         for base in (int, float, str, bytes):
             if isinstance(v, base):
-                return base.__repr__(v)
+                try:
+                    return base.__repr__(v)
+                except Exception:  # noqa -- e.g. an int beyond the int/str conversion limit
+                    return "<%s of %d bits>" % (base.__name__, v.bit_length()) if base is int else "<%s>" % base.__name__
         return "<%s>" % type(v).__name__
 
 
@@ -902,6 +916,177 @@ def report_failure(ctx, e, tag, records, seed_info):
                   dict(kind="sequence", cls=e.cls, tag=tag, detail=e.detail, records=[rec_repr(r) for r in records], **seed_info))
 
 
+# ------------------------------------------------------------------------------------------------
+# refused writes: the application catches the exception of write() and carries on
+
+def poison(rnd, r):
+    """make the record unserialisable behind the field types' back; returns the poisoned slot names (empty: not possible)"""
+    import sys
+    lim = sys.get_int_max_str_digits()
+    fields = list(r._desc.get_field_tuples())
+    lists = [n for t, n in fields if t.endswith("[]") and isinstance(getattr(r, n), list)]
+    ints = [n for t, n in fields if t in ("varint", "filesize", "unix_file_mode")] if lim else []
+    choices = [("list", n) for n in lists] + [("int", n) for n in ints]
+    if not choices:
+        return set()
+    kind, n = rnd.choice(choices) if rnd else choices[0]
+    if kind == "list":
+        getattr(r, n).append(rnd.choice([object(), {1, 2}, 1 + 2j]) if rnd else object())   # a raw element json.dumps has no encoding for
+    else:
+        setattr(r, n, 10 ** lim)         # one digit more than the interpreter converts to text
+    return {n}
+
+
+def refused_histories(ctx, n_random):
+    """(tag, records, {index: poisoned slots}, replay info)"""
+    from flow.record import RecordDescriptor
+    T0 = recgen.T0
+    P = RecordDescriptor("refuse/p", [("uint16[]", "ports"), ("string", "s"), ("varint", "n")])
+    Q = RecordDescriptor("refuse/q", [("string", "t")])
+    K = RecordDescriptor("refuse/kw", [("varint", "from"), ("bytes[]", "in")])
+    good = lambda i: P(ports=[1, i], s="g%d" % i, n=i, _generated=T0)          # noqa: E731
+    q = lambda i: Q(t="q%d" % i, _generated=T0)                                # noqa: E731
+    kw = lambda i: build_record(K, {"from": i, "in": [b"x"], "_generated": T0})  # noqa: E731
+
+    def bad(i, how):
+        r = good(i)
+        if how == "list":
+            r.ports.append(object())
+            return r, {"ports"}
+        import sys
+        r.n = 10 ** (sys.get_int_max_str_digits() or 4300)
+        return r, {"n"}
+
+    def kwbad(i):
+        r = kw(i)
+        getattr(r, "in").append({1})
+        return r, {"in"}
+    import sys
+    hows = ["list"] + (["int"] if sys.get_int_max_str_digits() else [])
+    scen = {}
+    for how in hows:
+        scen["first-of-type-refused-" + how] = [bad(0, how), good(1), good(2)]
+        scen["refused-between-" + how] = [good(0), bad(1, how), good(2), q(3)]
+        scen["two-refused-" + how] = [bad(0, how), bad(1, how), good(2), q(3)]
+        scen["other-type-then-refused-first-" + how] = [q(0), bad(1, how), good(2), q(3), good(4)]
+        scen["only-refused-" + how] = [bad(0, how)]
+    scen["keyword-type-refused-first"] = [kwbad(0), kw(1), q(2), kwbad(3), kw(4)]
+    A, B = (RecordDescriptor(n, f) for n, f in COLLIDING)
+    scen["refused-then-colliding"] = [bad(0, "list"), A(x="a", stringy=1, _generated=T0), B(xstring="b", y=2, _generated=T0), bad(3, "list"), good(4),
+                                      A(x="c", stringy=3, _generated=T0)]
+    for name, items in scen.items():
+        recs = [x[0] if isinstance(x, tuple) else x for x in items]
+        badmap = {i: x[1] for i, x in enumerate(items) if isinstance(x, tuple)}
+        yield "refused/" + name, recs, badmap, dict(refused=name)
+    for i in range(n_random):
+        rnd = random.Random("%d/C14/refused/%d" % (ctx.seed, i))
+        recs = gen_sequence(rnd, finite_only=True)
+        badmap = {}
+        for j, r in enumerate(recs):
+            if any(r is x for x in recs[:j]):
+                continue
+            if rnd.random() < 0.4:
+                slots = poison(rnd, r)
+                if slots:
+                    badmap[j] = slots
+        yield "refused/s%d" % i, recs, badmap, dict(refused_index=i)
+
+
+def run_refused(ctx, records, badmap, tmpd, tag, coq_cases, metas):
+    """oracle: every record whose write succeeded reads back, in order; every line is a strict JSON document; the
+    documents are the descriptor documents (before the first ATTEMPT that needs them) and the accepted records' documents"""
+    from flow.record.adapter.jsonfile import JsonfileWriter
+    descs = []
+    for r in records:
+        if r._desc not in descs:
+            descs.append(r._desc)
+    tbl = "[%s]" % "; ".join("(%s, %s)" % (coq_desc(d.name, d.get_field_tuples()), cZ(d.descriptor_hash)) for d in descs)
+    rs_lit = "[%s]" % "; ".join(coq_record(r, refused=badmap.get(i, ())) for i, r in enumerate(records))
+    for on in (True, False):
+        path = os.path.join(tmpd, "refused_%d.json" % on)
+        w = JsonfileWriter(path, descriptors=on)
+        flags, errors = [], []
+        try:
+            for i, r in enumerate(records):
+                try:
+                    w.write(r)
+                    flags.append(True)
+                except Exception as e:  # noqa -- the application carries on
+                    flags.append(False)
+                    errors.append("%d: %s: %s" % (i, type(e).__name__, str(e)[:60]))
+            w.flush()
+        finally:
+            w.close()
+        want_flags = [i not in badmap for i in range(len(records))]
+        if flags != want_flags:
+            raise Failure("refused-flags", "writes refused %r, expected exactly the poisoned records %r" % (
+                [i for i, f in enumerate(flags) if not f], sorted(badmap)), dict(errors=errors))
+        ok = [r for r, f in zip(records, flags) if f]
+        with open(path, "r", newline="") as fh:
+            text = fh.read()
+        lines = text.split("\n")[:-1] if text.endswith("\n") or not text else None
+        if lines is None:
+            raise Failure("refused-layout", "after a refused write the output does not end with a newline", dict(tail=text[-200:]))
+        trees = []
+        for k, ln in enumerate(lines):
+            try:
+                strict_parse(ln)
+                trees.append(parse_tree(ln))
+            except ValueError as e:
+                raise Failure("refused-not-json", "after a refused write line %d is not a JSON document: %s" % (k, e), dict(line=ln[:300], errors=errors))
+        # expected documents: descriptor document at the first attempt that needs it, record documents of the accepted writes
+        reg, exp = {}, []
+        for r, f in zip(records, flags):
+            d = r._desc
+            if reg.get(d.identifier) != (d.name, tuple(d.get_field_tuples())):
+                reg[d.identifier] = (d.name, tuple(d.get_field_tuples()))
+                if on:
+                    exp.append(spec_descriptor_tree(d))
+            if f:
+                exp.append(spec_record_tree(r, on))
+        problem = None
+        if on:
+            # the property: what was accepted reads back
+            try:
+                back = read_impl(path, "direct")
+                if [obs(x) for x in back] != [obs(x) for x in ok]:
+                    problem = "%d records read back, %d writes succeeded%s" % (len(back), len(ok), "" if len(back) != len(ok) else " (values differ)")
+            except Exception as e:  # noqa
+                back = None
+                problem = "reading back raises %s: %s" % (type(e).__name__, str(e)[:120])
+            # every record line is preceded by its descriptor line
+            if problem is None:
+                seen = set()
+                for t in trees:
+                    m = dict(t[1])
+                    if m.get("_type") == ("str", "recorddescriptor"):
+                        seen.add(m["_data"][1][0][1])
+                    elif m.get("_type") == ("str", "record") and m["_recorddescriptor"][1][0][1] not in seen:
+                        problem = "a record line of %s is not preceded by its descriptor line" % m["_recorddescriptor"][1][0][1]
+        else:
+            back = read_impl(path, "direct")
+            opaques = check_plain_readback(ok, [t for t in trees], back) if len(trees) == len(ok) else None
+        if problem is None and trees != exp:
+            problem = "the file holds %d documents, expected %d (descriptor documents at first use + the %d accepted records)" % (len(trees), len(exp), len(ok))
+        if problem:
+            raise Failure("refused-write", "the application carried on after refused write(s) (%s), descriptors=%s: %s" % (
+                "; ".join(errors)[:160], on, problem), dict(errors=errors, documents=[dict(t[1]).get("_type", ("", "plain"))[1] for t in trees]))
+        docs_lit = "[%s]" % "; ".join(coq_tree(t) for t in trees)
+        coq_cases.append("wt_ok %s %s %s %s" % ("true" if on else "false", tbl, rs_lit, docs_lit))
+        metas.append(dict(tag=tag, on=on, part="model tolerant writer = implementation documents after refused writes"))
+        if on:
+            coq_cases.append("r_ok %s %s [%s]" % (tbl, docs_lit, "; ".join(coq_record(x) for x in back)))
+            metas.append(dict(tag=tag, on=on, part="model reader = implementation read-back after refused writes"))
+            coq_cases.append("acc_ok %s %s [%s]" % (tbl, rs_lit, "; ".join("true" if f else "false" for f in flags)))
+            metas.append(dict(tag=tag, on=on, part="writes the model refuses = writes the implementation refused"))
+
+
+def report_refused(ctx, e, tag, records, badmap, info):
+    ctx.violation("%s [%s]" % (e.what, tag),
+                  dict(kind="refused", cls=e.cls, tag=tag, detail=e.detail, poisoned={str(k): sorted(v) for k, v in badmap.items()},
+                       records=[rec_repr(r) if i not in badmap else dict(type=r._desc.name, poisoned=sorted(badmap[i])) for i, r in enumerate(records)], **info))
+
+
 def sequences_for(ctx, n_random):
     """(tag, records, replay info) for the fixed probes and the seeded random histories"""
     for tag, recs in fixed_sequences():
@@ -924,6 +1109,15 @@ def search(ctx, reason):
             return True
         except Exception as e:  # noqa
             report_failure(ctx, Failure("exception", "%s; failing input: %s: %s" % (reason, type(e).__name__, str(e)[:200])), tag, recs, info)
+            return True
+    for tag, recs, badmap, info in refused_histories(ctx, 30):
+        try:
+            run_refused(ctx, recs, badmap, tmpd, tag, [], [])
+        except Failure as e:
+            report_refused(ctx, Failure(e.cls, "%s; failing input: %s" % (reason, e.what), e.detail), tag, recs, badmap, info)
+            return True
+        except Exception as e:  # noqa
+            report_refused(ctx, Failure("exception", "%s; failing input: %s: %s" % (reason, type(e).__name__, str(e)[:200])), tag, recs, badmap, info)
             return True
     try:
         smoke_fresh_processes(ctx, tmpd)
@@ -989,6 +1183,18 @@ def run(ctx):
             return
         if len(ctx.coverage["samples"]) < 4 and tag in ("all-types", "s0", "s1", "identifier-collision"):
             ctx.sample(dict(tag=tag, records=[rec_repr(r) for r in recs][:2]))
+    for tag, recs, badmap, info in refused_histories(ctx, 25 if ctx.tier == "quick" else 250):
+        seqs[tag] = (recs, info)
+        ctx.count_case(("refused", tag, tuple(sorted(badmap)), tuple(r._desc.name for r in recs)), nontrivial=bool(badmap))
+        try:
+            run_refused(ctx, recs, badmap, tmpd, tag, coq_cases, metas)
+        except Failure as e:
+            report_refused(ctx, e, tag, recs, badmap, info)
+            return
+        except Exception as e:  # noqa
+            import traceback
+            report_refused(ctx, Failure("exception", "%s: %s" % (type(e).__name__, str(e)[:300]), dict(tb=traceback.format_exc()[-1500:])), tag, recs, badmap, info)
+            return
     probe_split_pair(ctx, tmpd, kf)
     probe_nan_payload(ctx, tmpd, kf)
     probe_notes(ctx, tmpd)
@@ -1035,6 +1241,24 @@ def replay(obj):
             self.bad = True
     c = _C()
     c.bad = False
+    if obj.get("kind") == "refused":
+        tmpd = tempfile.mkdtemp(prefix="c14r.", dir=str(core.WORK))
+        try:
+            want = obj.get("tag")
+            for tag, recs, badmap, info in refused_histories(c, (obj.get("refused_index", -1) + 1)):
+                if tag == want:
+                    try:
+                        run_refused(c, recs, badmap, tmpd, tag, [], [])
+                    except Failure as e:
+                        print("replay: still fails: %s" % e.what)
+                        return 1
+                    print("replay: the case passes now")
+                    return 0
+            print("replay: history %s not found" % want)
+            return 2
+        finally:
+            import shutil
+            shutil.rmtree(tmpd, ignore_errors=True)
     if obj.get("kind") != "sequence":
         print("replay of kind %s: re-run ./check C14" % obj.get("kind"))
         return 2
